@@ -620,7 +620,7 @@ MONITORS = {
 
 def setup():
     core.ensure_selftest()
-    for fl in ("asan", "rel"):
+    for fl in ("asan", "rel", "tsan", "vg"):
         core.ensure_engine(fl)
     for m, fls in MONITORS.items():
         for fl in fls:
